@@ -20,23 +20,36 @@
     while this package was built, so the statement below has no [~ Known] hypothesis any more; the
     predicates stay as classifiers (a repaired mechanism that comes back is a violation).
 
-    NOT proved here: [C01_bash_meaning_statement], the statement about the script itself.  It needs
-    the interpreter of the bash skeleton (Model/BashSem.v, another work package); it is stated
-    below over an abstract interpreter so that it can be instantiated after the merge. *)
+    [C01_bash_meaning_literal] and [C01_bash_meaning_toplevel] (below) prove the statement about the
+    script itself -- [BashSem.run_from Repaired] on [Tables.all_tables Bash (Driver.compile_valid v)]
+    against [Meaning.complete] -- for all trees without within-word expressions.  The general
+    statement [C01_bash_meaning_statement] (within-word items included) is NOT proved. *)
+From CG Require Import Model.Dfa Model.Tables Model.Glob Model.BashSem Model.Driver.
 From CG Require Import Base.Prelude Model.Ast Model.Check Spec.Rx Spec.Meaning Spec.KnownC01 Spec.Domain
      Proofs.RxFacts Proofs.MeaningFacts Proofs.MeaningLevels Proofs.DomainFacts.
+From CG Require Import Proofs.TreeFacts Proofs.GlobFacts Proofs.StripFacts Proofs.BashMeaningLit Proofs.LangBridge Proofs.C01Layers.
+From CG Require Import Spec.Invocations.
 
-(** The full statement, over an abstract interpreter [script_run] of the script emitted for the
-    validated grammar [e] ([None] = exit status 1, [Some reply] = exit status 0 with COMPREPLY). *)
-Definition C01_bash_meaning_statement
-           (script_run : expr -> env -> list string -> string -> option (list string)) : Prop :=
-  forall e en ws p,
-    C01_domain e = true -> C01_env_ok e en = true ->
-    ambiguous_run en (start e) ws = false ->
-    match complete e en ws p, script_run e en ws p with
-    | None, None => True
-    | Some (req, al), Some reply => incl req reply /\ incl reply al
-    | _, _ => False
+(** The full statement: the interpreter of the script of /repo HEAD on the tables of the model
+    pipeline against the specification, for every validated tree in the decided domain -- within-word
+    expressions included.  Proved below for trees without within-word expressions
+    ([C01_bash_meaning_literal], [C01_bash_meaning_toplevel]: there required = reply = allowed);
+    the general case (layer (c): within-word items) is only stated. *)
+Definition C01_bash_meaning_statement : Prop :=
+  forall pick fuel v c om os nd a (benv : BashSem.env) (en : Meaning.env) ws p,
+    Proofs.TreeFacts.alts_nonempty (v_expr v) = true ->
+    compile_valid pick fuel v = Ok c ->
+    all_tables Bash c om os = Ok (nd, a) -> valid_orders c om os = true ->
+    C01_domain (v_expr v) = true -> C01_env_ok (v_expr v) en = true ->
+    BashSem.e_ignore_case benv = false -> BashSem.e_wordbreaks benv = Meaning.e_wordbreaks en ->
+    (forall cm cid, Tables.index_of cm (a_commands a) = Some cid ->
+                    Spec.Invocations.spec_candidates (cmd_output benv cid) = candidates en cm) ->
+    ambiguous_run en (start (v_expr v)) ws = false ->
+    match complete (v_expr v) en ws p with
+    | None => exists log, run_from Repaired (d_start (c_main c)) a benv ws p = Ok (mkresult 1 [] log)
+    | Some (req, al) =>
+        exists reply log, run_from Repaired (d_start (c_main c)) a benv ws p = Ok (mkresult 0 reply log)
+                          /\ incl req reply /\ incl reply al
     end.
 
 Theorem C01_linear_form_correct :
@@ -136,6 +149,155 @@ Check C01_domain_along_runs :
     C01_domain e = true -> ambiguous_run en (start e) ws = false -> matched en e ws = true ->
     point_decl (moves (run en (start e) ws)).
 Print Assumptions C01_domain_along_runs.
+
+(** *** C01_bash_meaning, layer (a): grammars all of whose leaves are literals.
+    The interpreter of the script of /repo HEAD ([BashSem.run_from Repaired], tied to real bash by
+    T2) run on the tables the model pipeline computes ([Tables.all_tables Bash] of
+    [Driver.compile_valid v], for every literal order the emitter may choose) returns exactly what
+    [Spec.Meaning.complete] prescribes for the validated tree: status 1 and nothing when the words
+    cannot be matched, otherwise status 0 and the required candidates as a set (required = allowed:
+    no within-word items).  No hypothesis about the automaton is left: C02 (language), C03 (trim),
+    C04 (tables), C17 (interpreter = table-level specification) are composed inside the proof.
+    Side conditions: the typed word is printable and free of glob characters; no COMP_WORDBREAKS
+    character is one of \ ? * [ (true of bash's default). *)
+Theorem C01_bash_meaning_literal :
+  forall pick fuel v c om os nd a (benv : BashSem.env) (en : Meaning.env) ws p,
+    lit_tree (v_expr v) = true -> alts_nonempty (v_expr v) = true ->
+    compile_valid pick fuel v = Ok c ->
+    all_tables Bash c om os = Ok (nd, a) -> NoDup om -> valid_literal_order (c_main c) om = true ->
+    C01_domain (v_expr v) = true ->
+    BashSem.e_ignore_case benv = false -> BashSem.e_wordbreaks benv = Meaning.e_wordbreaks en ->
+    breaks_ok (BashSem.e_wordbreaks benv) = true -> plain p = true -> printable_str p = true ->
+    match complete (v_expr v) en ws p with
+    | None => run_from Repaired (d_start (c_main c)) a benv ws p = Ok (mkresult 1 [] [])
+    | Some (req, al) =>
+        exists reply, run_from Repaired (d_start (c_main c)) a benv ws p = Ok (mkresult 0 reply [])
+                      /\ (forall x, In x reply <-> In x req) /\ (forall x, In x al <-> In x req)
+    end.
+Proof. exact bash_meaning_literal. Qed.
+Check C01_bash_meaning_literal :
+  forall pick fuel v c om os nd a (benv : BashSem.env) (en : Meaning.env) ws p,
+    lit_tree (v_expr v) = true -> alts_nonempty (v_expr v) = true ->
+    compile_valid pick fuel v = Ok c ->
+    all_tables Bash c om os = Ok (nd, a) -> NoDup om -> valid_literal_order (c_main c) om = true ->
+    C01_domain (v_expr v) = true ->
+    BashSem.e_ignore_case benv = false -> BashSem.e_wordbreaks benv = Meaning.e_wordbreaks en ->
+    breaks_ok (BashSem.e_wordbreaks benv) = true -> plain p = true -> printable_str p = true ->
+    match complete (v_expr v) en ws p with
+    | None => run_from Repaired (d_start (c_main c)) a benv ws p = Ok (mkresult 1 [] [])
+    | Some (req, al) =>
+        exists reply, run_from Repaired (d_start (c_main c)) a benv ws p = Ok (mkresult 0 reply [])
+                      /\ (forall x, In x reply <-> In x req) /\ (forall x, In x al <-> In x req)
+    end.
+Print Assumptions C01_bash_meaning_literal.
+
+(** Its hypotheses are inhabited: [cmd (add || rm "d") [x=y];] goes through the whole model
+    pipeline, and both sides compute the same answers (default COMP_WORDBREAKS: "x=" is stripped). *)
+Definition exl_sp := mkspan 1 1 2.
+Definition exl_e : expr :=
+  Sequence [Fallback [Terminal "add" None 0 exl_sp; Terminal "rm" (Some "d") 1 exl_sp] exl_sp;
+            Optional (Terminal "x=y" None 0 exl_sp) exl_sp] exl_sp.
+Definition exl_v := mkvalid "cmd" exl_e [] [] [].
+Definition exl_om := [("x=y", ""); ("add", ""); ("rm", "d")]%string.
+Definition exl_benv := BashSem.mkenv bash_default_wordbreaks [] false.
+Definition exl_en := Meaning.mkenv bash_default_wordbreaks [].
+
+Example ex_C01_literal_layer_inhabited :
+  match compile_valid (fun _ _ => O) 100 exl_v with
+  | Ok c =>
+      match all_tables Bash c exl_om [] with
+      | Ok (nd, a) =>
+          lit_tree exl_e = true /\ alts_nonempty exl_e = true /\ valid_literal_order (c_main c) exl_om = true
+          /\ C01_domain exl_e = true /\ breaks_ok (BashSem.e_wordbreaks exl_benv) = true
+          /\ run_from Repaired (d_start (c_main c)) a exl_benv ["add"] "x=" = Ok (mkresult 0 ["y "] [])
+          /\ complete exl_e exl_en ["add"] "x=" = Some (["y "], ["y "])
+          /\ run_from Repaired (d_start (c_main c)) a exl_benv [] "" = Ok (mkresult 0 ["add "] [])
+          /\ complete exl_e exl_en [] "" = Some (["add "], ["add "])
+          /\ run_from Repaired (d_start (c_main c)) a exl_benv ["zz"] "" = Ok (mkresult 1 [] [])
+          /\ complete exl_e exl_en ["zz"] "" = None
+      | _ => False
+      end
+  | _ => False
+  end.
+Proof. vm_compute. repeat split; reflexivity. Qed.
+Print Assumptions ex_C01_literal_layer_inhabited.
+
+(** *** C01_bash_meaning, layer (b): leaves = literals, external commands, undefined nonterminals
+    (no within-word expressions).  Same statement as layer (a), for command lines on which no
+    two different commands accept the same word ([ambiguous_run = false]); [Henv] says that the
+    two environments describe the same commands (command number [cid] of the script prints the
+    candidates the specification attributes to that command text).  The invocation log is left
+    existential (it is C17's subject). *)
+Theorem C01_bash_meaning_toplevel :
+  forall pick fuel v c om os nd a (benv : BashSem.env) (en : Meaning.env) ws p,
+    toplevel_tree (v_expr v) = true -> alts_nonempty (v_expr v) = true ->
+    compile_valid pick fuel v = Ok c ->
+    all_tables Bash c om os = Ok (nd, a) -> NoDup om -> valid_literal_order (c_main c) om = true ->
+    C01_domain (v_expr v) = true ->
+    BashSem.e_ignore_case benv = false -> BashSem.e_wordbreaks benv = Meaning.e_wordbreaks en ->
+    breaks_ok (BashSem.e_wordbreaks benv) = true -> plain p = true -> printable_str p = true ->
+    (forall cm cid, Tables.index_of cm (a_commands a) = Some cid ->
+                    spec_candidates (cmd_output benv cid) = candidates en cm) ->
+    ambiguous_run en (start (v_expr v)) ws = false ->
+    match complete (v_expr v) en ws p with
+    | None => exists log, run_from Repaired (d_start (c_main c)) a benv ws p = Ok (mkresult 1 [] log)
+    | Some (req, al) =>
+        exists reply log, run_from Repaired (d_start (c_main c)) a benv ws p = Ok (mkresult 0 reply log)
+                          /\ (forall x, In x reply <-> In x req) /\ (forall x, In x al <-> In x req)
+    end.
+Proof. exact bash_meaning_toplevel. Qed.
+Check C01_bash_meaning_toplevel :
+  forall pick fuel v c om os nd a (benv : BashSem.env) (en : Meaning.env) ws p,
+    toplevel_tree (v_expr v) = true -> alts_nonempty (v_expr v) = true ->
+    compile_valid pick fuel v = Ok c ->
+    all_tables Bash c om os = Ok (nd, a) -> NoDup om -> valid_literal_order (c_main c) om = true ->
+    C01_domain (v_expr v) = true ->
+    BashSem.e_ignore_case benv = false -> BashSem.e_wordbreaks benv = Meaning.e_wordbreaks en ->
+    breaks_ok (BashSem.e_wordbreaks benv) = true -> plain p = true -> printable_str p = true ->
+    (forall cm cid, Tables.index_of cm (a_commands a) = Some cid ->
+                    spec_candidates (cmd_output benv cid) = candidates en cm) ->
+    ambiguous_run en (start (v_expr v)) ws = false ->
+    match complete (v_expr v) en ws p with
+    | None => exists log, run_from Repaired (d_start (c_main c)) a benv ws p = Ok (mkresult 1 [] log)
+    | Some (req, al) =>
+        exists reply log, run_from Repaired (d_start (c_main c)) a benv ws p = Ok (mkresult 0 reply log)
+                          /\ (forall x, In x reply <-> In x req) /\ (forall x, In x al <-> In x req)
+    end.
+Print Assumptions C01_bash_meaning_toplevel.
+
+(** Inhabited: [cmd (add || {{{probe}}}) <U> end;] through the whole model pipeline; the probe prints
+    "P1" and "aQ<TAB>descr". *)
+Definition ext_e : expr :=
+  Sequence [Fallback [Terminal "add" None 0 exl_sp; Command "probe" false 1 exl_sp] exl_sp;
+            NontermRef "U" 0 exl_sp; Terminal "end" None 0 exl_sp] exl_sp.
+Definition ext_v := mkvalid "cmd" ext_e [] [] [].
+Definition ext_om := [("end", ""); ("add", "")]%string.
+Definition ext_nl := String (ch 10) EmptyString.
+Definition ext_out := ("P1" ++ ext_nl ++ "aQ" ++ String (ch 9) "descr" ++ ext_nl)%string.
+Definition ext_benv := BashSem.mkenv bash_default_wordbreaks [(0, ext_out)] false.
+Definition ext_en := Meaning.mkenv bash_default_wordbreaks [("probe", ["P1"; ("aQ" ++ String (ch 9) "descr")%string])]%string.
+
+Example ex_C01_toplevel_layer_inhabited :
+  match compile_valid (fun _ _ => O) 100 ext_v with
+  | Ok c =>
+      match all_tables Bash c ext_om [] with
+      | Ok (nd, a) =>
+          toplevel_tree ext_e = true /\ alts_nonempty ext_e = true /\ valid_literal_order (c_main c) ext_om = true
+          /\ C01_domain ext_e = true /\ a_commands a = ["probe"]%string
+          /\ spec_candidates (cmd_output ext_benv 0) = candidates ext_en "probe"
+          /\ ambiguous_run ext_en (start ext_e) ["P1"; "x"]%string = false
+          /\ run_from Repaired (d_start (c_main c)) a ext_benv [] "P" = Ok (mkresult 0 ["P1"] [(0, "P", "")])
+          /\ complete ext_e ext_en [] "P" = Some (["P1"], ["P1"])
+          /\ run_from Repaired (d_start (c_main c)) a ext_benv ["P1"; "x"] "" = Ok (mkresult 0 ["end "] [(0, "", "")])
+          /\ complete ext_e ext_en ["P1"; "x"] "" = Some (["end "], ["end "])
+          /\ run_from Repaired (d_start (c_main c)) a ext_benv ["zz"] "" = Ok (mkresult 1 [] [(0, "", "")])
+          /\ complete ext_e ext_en ["zz"] "" = None
+      | _ => False
+      end
+  | _ => False
+  end.
+Proof. vm_compute. repeat split; reflexivity. Qed.
+Print Assumptions ex_C01_toplevel_layer_inhabited.
 
 (** Non-vacuity: a grammar with two || levels, a within-word expression and a command is inside
     the domain, and the specification computes the answers one expects from the README. *)
